@@ -4,7 +4,10 @@ import St4sd.Lemmas.C01
 # C01 — a component is launched only when all its producers are final, and never on a failed one
 
 Property theorems only, about the transition system `St4sd.Ctrl.run wf ops` for **every** workflow
-`wf` (no well-formedness hypothesis) and **every** operation sequence `ops`.  The ghost field
+`wf` (no well-formedness hypothesis) and **every** operation sequence `ops` — scheduler passes,
+task exits, notification deliveries, kills and stage transitions (`Op.next`: the stage loop of
+`elaunch.Run`, with or without `continue-on-error`), so the theorems cover launches in every stage
+of a multi-stage run and launches of future-stage components.  The ghost field
 `log` records, at every scheduler launch `runComp wf s c`, what the launch saw of each producer
 (`viewOf s p`: true controller state and membership of `comp_staged_in`).
 
@@ -124,5 +127,45 @@ def wfEx2 : Wf :=
 launched but shut down by the scheduler. -/
 example : (run wfEx2 opsEx).log.length = 4 ∧ ((run wfEx2 opsEx).comp 3).ran = false ∧
     ((run wfEx2 opsEx).comp 3).ctrl = some .shutdown := by decide +kernel
+
+/-! ### two stages: an aggregating consumer in a later stage than its replicated producers
+
+Replicas 0 (ends `UnknownIssue`: FAILED) and 1, a third component 2 in stage 0; the aggregator 3 of
+the replicas lives in stage 1.  Stage 0 has `continue-on-error`. -/
+
+def wfEx3 : Wf where
+  n := 4
+  lastStage := 1
+  contOnErr := fun k => k == 0
+  cdef := fun c => match c with
+    | 0 => { isRepl := true, script := [.unknownIssue] }
+    | 1 => { isRepl := true }
+    | 2 => {}
+    | 3 => { stage := 1, preds := [0, 1], isAgg := true }
+    | _ => {}
+  order := [3, 0, 1, 2]
+
+/-- both replicas are recorded while component 2 of the failing stage is still winding down; the
+scheduler pass in that window looks at the future-stage aggregator -/
+def opsEx3a : List Op :=
+  [.sched, .sched, .exit 0, .pm 0, .exit 1, .pm 1, .fin 1, .fin 0, .sched, .exit 2, .fin 2, .fin 3]
+
+/-- the failed replica is the last notification of stage 0; the aggregator is inspected only after
+the transition to stage 1 -/
+def opsEx3b : List Op :=
+  [.sched, .sched, .exit 1, .pm 1, .fin 1, .exit 2, .pm 2, .fin 2, .exit 0, .pm 0, .fin 0, .next,
+   .sched, .sched, .fin 3]
+
+/-- in both orderings the aggregator is never launched (one healthy replica notwithstanding) but
+shut down -/
+example : (run wfEx3 opsEx3a).log.map (·.1) = [0, 1, 2] ∧ ((run wfEx3 opsEx3a).comp 3).ran = false ∧
+    ((run wfEx3 opsEx3a).comp 3).ctrl = some .shutdown ∧ (run wfEx3 opsEx3a).cur = 0 := by
+  decide +kernel
+
+example : (run wfEx3 opsEx3b).log.map (·.1) = [0, 1, 2] ∧ ((run wfEx3 opsEx3b).comp 3).ran = false ∧
+    ((run wfEx3 opsEx3b).comp 3).ctrl = some .shutdown ∧ (run wfEx3 opsEx3b).cur = 1 ∧
+    ((run wfEx3 opsEx3b).comp 0).ctrl = some .failed ∧
+    ((run wfEx3 opsEx3b).comp 1).ctrl = some .finished := by
+  decide +kernel
 
 end St4sd.C01
